@@ -57,7 +57,7 @@ pub struct Step {
     pub kind: Kind,
     /// raw draw, mapped into 0..=102400 for data and 0..=125 for control frames (skewed to small)
     pub len: u16,
-    /// `Burst` only: raw draw -> 1..=8 small messages waiting for the sender of the large one
+    /// `Burst` only: raw draw -> 1..=8 (1..=40 over an uncapped proxy) small messages waiting for the sender of the large one
     #[serde(default)]
     pub queued: u8,
 }
@@ -148,8 +148,10 @@ impl Step {
 }
 
 impl Step {
-    fn queued(&self) -> usize {
-        mono_range(self.queued as u16 * 257, 1, 8)
+    /// up to 8 small messages when the path to their reader is capped (they must fit into the socket
+    /// buffers while nobody reads), up to 40 when the proxy buffers without limit
+    fn queued(&self, capped: bool) -> usize {
+        mono_range(self.queued as u16 * 257, 1, if capped { 8 } else { 40 })
     }
 
     /// the j-th small message waiting for the sender of a `Burst`
@@ -382,7 +384,8 @@ async fn conversation(case: &WsCase, c: &mut Ws, s: &mut Ws, pr: &Progress) -> R
         let m = st.message(i);
         let (x, y) = if st.from_client { (&mut *c, &mut *s) } else { (&mut *s, &mut *c) };
         if st.kind == Kind::Burst {
-            let q = st.queued();
+            // the small messages travel from y to x: direction 1 (server -> client) when x is the client
+            let q = st.queued(case.proxy_cap[if st.from_client { 1 } else { 0 }] != 0);
             // y's small messages fit into the socket buffers: they wait there, x is not reading yet
             pr.stage.set("burst-queue");
             for j in 0..q {
@@ -397,10 +400,19 @@ async fn conversation(case: &WsCase, c: &mut Ws, s: &mut Ws, pr: &Progress) -> R
             let xr = async {
                 for j in 0..q {
                     expect(x, "burst-read", &st.small(i, j)).await?;
+                    if std::env::var("C15_TRACE").is_ok() {
+                        eprintln!("  burst step {i}: queued message {j} read");
+                    }
                 }
                 guarded("burst-flush", WATCHDOG, x.flush()).await?.map_err(|e| ws_err("burst-flush", e))
             };
-            let yr = expect(y, "burst-big-read", &m);
+            let yr = async {
+                let r = expect(y, "burst-big-read", &m).await;
+                if std::env::var("C15_TRACE").is_ok() {
+                    eprintln!("  burst step {i}: large message read ({})", r.is_ok());
+                }
+                r
+            };
             let (a, b) = futures_util::future::join(xr, yr).await;
             both(a, b)?;
             continue;
@@ -624,4 +636,36 @@ pub fn run(case: &WsCase, verif_dir: &std::path::Path) -> Outcome {
             Outcome::pass_owned(nontrivial, labels)
         }
     }
+}
+
+// ------------------------------------------------------------------------------------------------
+// fixed cases
+
+pub fn regressions() -> Vec<(&'static str, WsCase)> {
+    let burst = |from_client, len, queued| Step { from_client, kind: Kind::Burst, len, queued };
+    // (a) default socket buffers, unthrottled proxy: the ~300 KiB message needs one or two flush rounds while
+    //     eight small messages are waiting; (b) tiny buffers and a capped, stalling proxy: many rounds
+    let base = |tls, iour, tight: bool| WsCase {
+        iour,
+        tls,
+        tiny_sndbuf: [tight, tight],
+        proxy: if tight { [vec![PEv { chunk: 3000, stall_us: 200 }, PEv { chunk: 70, stall_us: 0 }], vec![PEv { chunk: 900, stall_us: 100 }]] } else { [vec![PEv { chunk: 8192, stall_us: 300 }], vec![PEv { chunk: 8192, stall_us: 300 }]] },
+        proxy_cap: if tight { [1, 20000] } else { [0, 0] },
+        steps: vec![
+            burst(true, if tight { 20000 } else { 50000 }, 255),
+            Step { from_client: false, kind: Kind::Ping, len: 30000, queued: 0 },
+            burst(false, if tight { 65535 } else { 52000 }, 255),
+            Step { from_client: true, kind: Kind::Text, len: 60000, queued: 0 },
+        ],
+        client_closes: true,
+        close_with_frame: true,
+    };
+    vec![
+        ("bursts-plain", base(WsTls::Plain, true, false)),
+        ("bursts-plain-poll", base(WsTls::Plain, false, false)),
+        ("bursts-rustls", base(WsTls::Rustls, false, false)),
+        ("bursts-native", base(WsTls::Native, true, false)),
+        ("bursts-under-back-pressure-plain", base(WsTls::Plain, true, true)),
+        ("bursts-under-back-pressure-rustls", base(WsTls::Rustls, false, true)),
+    ]
 }
